@@ -989,6 +989,9 @@ def append_faces(vertices_seq, faces_seq):
     vertices = vstack_empty(vertices_seq)
     # stack to clean (n, 3) int
     faces = vstack_empty(new_faces)
+    if len(faces) == 0:
+        # no group had faces: keep the (0, 3) shape of a face-less mesh
+        faces = np.zeros((0, 3), dtype=np.int64)
 
     return vertices, faces
 
